@@ -121,7 +121,7 @@ ASSUMPTIONS = [
     "vf.gen.frames.meta_violation is the comparison discipline (str/object dtype equivalence, index dtype only for non-empty objects)",
     "dask.dataframe is imported through the pyarrow import stub (pandas-backed strings); sync scheduler",
 ]
-BUDGET = {"quick": 90, "thorough": 540}
+BUDGET = {"quick": 120, "thorough": 900}
 FLOORS = {
     # measured on the unchanged tree (seeds 0,1,2,7,12345, complete streams of 1600 cases): results checked >= 1438, partitions
     # >= 4570 (empty >= 868), c36 pipelines >= 553, ops programs >= 885, series/frame/scalar/index results >= 372/965/56/19
@@ -184,7 +184,7 @@ OPS_CLASSES = ("reduction", "groupby-agg", "merge", "concat", "shuffle", "window
 # classes whose programs end with a CONSUMER (column selection / filter / arithmetic / assign / index) of the operation
 NEW_CLASSES = ("indexcol", "pushdown", "indexcol", "select-after", "indexcol", "pushdown", "select-after")
 N_OLD = {"quick": 1600, "thorough": 24000}
-N_NEW = {"quick": 1120, "thorough": 11200}
+N_NEW = {"quick": 1120, "thorough": 8400}
 
 
 def cases(tier, seed):
@@ -198,8 +198,13 @@ def cases(tier, seed):
             yield {"src": "ops", "klass": OPS_CLASSES[j % len(OPS_CLASSES)], "cs": rng.randrange(2 ** 31)}
             j += 1
     rng = random.Random(seed * 2654435761 % (2 ** 31) + 4242)
+    k = seed
     for i in range(N_NEW[tier]):
-        yield {"src": "ops", "klass": NEW_CLASSES[i % len(NEW_CLASSES)], "cs": rng.randrange(2 ** 31)}
+        case = {"src": "ops", "klass": NEW_CLASSES[i % len(NEW_CLASSES)], "cs": rng.randrange(2 ** 31)}
+        if case["klass"] == "pushdown":
+            case["k"] = k           # the pushdown operations are taken in turn
+            k += 1
+        yield case
 
 
 def shard_setup(tier, seed):
@@ -213,7 +218,7 @@ def shard_setup(tier, seed):
 
 
 # --------------------------------------------------------------------------- programs
-def build_ops(cs, klass):
+def build_ops(cs, klass, k=None):
     from vf.gen import c42_programs as Q
     from vf.gen import frames as F
 
@@ -226,7 +231,7 @@ def build_ops(cs, klass):
     opdf = F.rand_frame(cs + 7, nmax=25, index=kind, cols="wide")
     odesc = F.rand_partition_desc(rng, len(opdf), True)
     oddf = F.partition(opdf, odesc)
-    desc = Q.gen_program(rng, klass=klass)
+    desc = Q.gen_program(rng, klass=klass, k=k)
     if klass == "indexcol":
         # the program names its own index: dtype int / datetime / str / categorical, unnamed / named / named like a column
         pdf = Q.prepare_frame(desc, pdf, cs)
@@ -610,7 +615,7 @@ def run_case(case, ctx):
         else:
             from vf.gen import c42_programs as Q
 
-            c = build_ops(case["cs"], case["klass"])
+            c = build_ops(case["cs"], case["klass"], case.get("k"))
             desc = c["desc"]
             run = lambda frame, is_dask, other, upto=None: Q.apply(desc, frame, is_dask, other=other, upto=upto)  # noqa: E731
             klass = "%s:%s" % (desc["class"], desc["form"])
